@@ -53,9 +53,10 @@ def mark_predicates(prog):
     for name, k in classes.class_fns(prog).items():
         if name in BENGALI_CLASSES:
             continue
-        dom = [chr(c) for c in range(0x20, 0x7f)] + ["ক", "া", "অ", "্", "ঁ", "।"]
+        dom = [chr(c) for c in range(0x20, 0x7f)] + ["ক", "া", "অ", "্", "ঁ", "।", "॥"]
         cs = pe.char_set(k, dom)
-        if cs is not None and cs and all(ord(c) < 0x7f and not c.isalnum() for c in cs):
+        import unicodedata as _ud
+        if cs is not None and cs and all(_ud.category(c)[0] in "PS" and not c.isalnum() for c in cs):
             MARK_SETS[name] = "".join(sorted(cs))
     return MARK_SETS
 
